@@ -276,7 +276,7 @@ def fam_corrupt(nmin: int = 2, nmax: int = 3, *, batch: int = 2) -> Iterator[Con
 
 
 def fam_e3(bases: Iterable[Config], *, backends=('fork', 'spawn'), workers=(1, 2, None), cpu_count: int = 2,
-           die_exit0=(False,), liveness: bool = True, monitor: bool = False, linger: bool = False, queue_scale=None):
+           die_exit0=(False,), liveness: bool = True, monitor: bool = False, linger: bool = False, queue_scale=None, prelude: bool = False):
     """Real ProcessRunner configurations over the virtual OS for the given base configurations."""
     from .e3 import E3Config
     for b in bases:
@@ -286,7 +286,7 @@ def fam_e3(bases: Iterable[Config], *, backends=('fork', 'spawn'), workers=(1, 2
                     if dx and not b.died:
                         continue
                     yield E3Config(base=b, backend=be, max_workers=mw, cpu_count=cpu_count, die_exit0=dx,
-                                   liveness_choice=liveness, monitor=monitor, queue_scale=queue_scale)
+                                   liveness_choice=liveness, monitor=monitor, queue_scale=queue_scale, prelude=prelude)
                     if linger:
                         # each single node in turn leaves its worker process behind (it never exits)
                         for i in range(b.spec.n):
